@@ -13,7 +13,7 @@ ID = "C14"
 LEVEL = "exploration"
 RULE = (
     "Part fit: Hypothesis draws a shape (predefined-model shapes plus linear/polynomial), generating coefficients, 3-20 support points with "
-    "noise, bounds (none / one-sided / two-sided / active at the unconstrained optimum), inequality constraints (dict or list, active or "
+    "noise, bounds (none / one-sided / two-sided / active at the unconstrained optimum: lower, upper, or exactly 0 with the other side open), inequality constraints (dict or list, active or "
     "inactive), an optional weights callable and start values. Oracle: bounds and constraints hold, J(fitted) <= J(start) and <= J at 64 "
     "admissible perturbations (relative 1e-4..1e-1) for the harness' own (weighted) squared residual, linear shapes equal numpy lstsq. "
     "Part order: chains of 2-3 dependence functions (a function taking other functions as parameters), declared in any order and fitted "
@@ -271,9 +271,38 @@ def strat_fit(draw, tier):
     else:
         # (a start value of ~0 freezes MINPACK's relative finite-difference step: not a realistic user start)
         p0 = [t * (1 + draw(st.floats(-0.3, 0.3))) if abs(t) > 1e-6 else 0.1 for t in truth]
-    bounds_kind = draw(st.sampled_from(["none", "one_sided", "two_sided", "active"]))
+    bounds_kind = draw(st.sampled_from(["none", "one_sided", "two_sided", "active", "active_upper", "active_zero"]))
     bounds = None
     start = p0 if p0 is not None else [1.0] * n_par
+    if bounds_kind in ("active_upper", "active_zero"):
+        # an upper bound that is active at the optimum; 'active_zero': the active bound is exactly 0 (a falsy value;
+        # seeded change C14e `upper or np.inf`), on whichever side excludes the true value, the other side open (None).
+        # Only where the shape is defined on that side (e.g. not for the argument of a logarithm): else the classic form.
+        j = draw(st.integers(0, n_par - 1))
+        b_new = [(None, None)] * n_par
+        s_new = list(start)
+        if bounds_kind == "active_zero" and truth[j] > 1e-6:
+            b_new[j] = (None, 0)
+            s_new[j] = -0.5 * abs(truth[j]) - 0.5
+            edge = 0.0
+        elif bounds_kind == "active_zero" and truth[j] < -1e-6:
+            b_new[j] = (0, None)
+            s_new[j] = 0.5 * abs(truth[j]) + 0.5
+            edge = 0.0
+        else:
+            cut = truth[j] - 0.2 * abs(truth[j]) - 0.05
+            b_new[j] = (cut - 10 * abs(cut) - 10.0, cut)
+            s_new[j] = cut - 0.5 * abs(cut) - 0.5
+            edge = cut
+        at_edge = list(s_new)
+        at_edge[j] = edge
+        f = getattr(depshapes, shape)
+        with np.errstate(all="ignore"):
+            defined = all(np.all(np.isfinite(np.asarray(f(np.asarray(x, dtype=float), *q), dtype=float))) for q in (s_new, at_edge))
+        if defined:
+            bounds, start, p0, p0_kind = b_new, s_new, s_new, "inside_active_bounds"
+        else:
+            bounds_kind = "active"
     if bounds_kind == "one_sided":
         bounds = [(min(0.0, t - abs(t), s - abs(s)), None) if i % 2 == 0 else (None, max(t, s) + abs(t) + abs(s) + 1.0) for i, (t, s) in enumerate(zip(truth, start))]
     elif bounds_kind == "two_sided":
